@@ -370,7 +370,7 @@ func (e *env) close() {
 	}
 }
 
-func build(brokers int, itopics [][2]int, withEtcd bool) (*env, error) {
+func build(brokers int, itopics [][3]int, withEtcd bool) (*env, error) {
 	cm := metadata.ClusterMetadata{ControllerID: 0, ClusterName: kmsg.StringPtr("verif"), ClusterID: kmsg.StringPtr("c40")}
 	for i := 0; i < brokers; i++ {
 		cm.Brokers = append(cm.Brokers, protocol.MetadataBroker{NodeID: int32(i), Host: fmt.Sprintf("b%d", i), Port: 9092})
@@ -378,7 +378,18 @@ func build(brokers int, itopics [][2]int, withEtcd bool) (*env, error) {
 	for _, it := range itopics {
 		t := protocol.MetadataTopic{Topic: kmsg.StringPtr(fmt.Sprintf("t%d", it[0]))}
 		for p := 0; p < it[1]; p++ {
-			t.Partitions = append(t.Partitions, protocol.MetadataPartition{Partition: int32(p), Leader: 0, Replicas: []int32{0}, ISR: []int32{0}})
+			part := protocol.MetadataPartition{Partition: int32(p), Leader: 0, Replicas: []int32{0}, ISR: []int32{0}}
+			if v := it[2]; v >= 0 {
+				// rtopic: non-ascending, rotated, duplicate-carrying lists (same table as Lean's layoutOf)
+				part.Replicas = layoutList((v + p) % 6)
+				part.ISR = layoutList((v + 2*p + 3) % 6)
+				part.OfflineReplicas = nil
+				if v%2 == 1 {
+					part.OfflineReplicas = layoutList((v + p + 1) % 6)
+				}
+				part.Leader = part.Replicas[0]
+			}
+			t.Partitions = append(t.Partitions, part)
 		}
 		cm.Topics = append(cm.Topics, t)
 	}
@@ -409,6 +420,10 @@ func build(brokers int, itopics [][2]int, withEtcd bool) (*env, error) {
 	}
 	return e, nil
 }
+
+var layoutTable = [][]int32{{2, 0, 1}, {1, 2, 0}, {2, 1, 0}, {1, 0}, {2, 2, 0}, {0, 2, 1, 1}}
+
+func layoutList(i int) []int32 { return append([]int32(nil), layoutTable[i]...) }
 
 func (e *env) stores() []metadata.Store {
 	out := []metadata.Store{e.mem}
@@ -523,11 +538,11 @@ func callTool(cs *mcp.ClientSession, tool string, args any) (out string) {
 		for _, t := range o.Topics {
 			var ps []string
 			for _, p := range t.Partitions {
-				ps = append(ps, strconv.Itoa(int(p.Partition)))
+				ps = append(ps, fmt.Sprintf("%d=%s|%s|%s", p.Partition, dotted(p.ReplicaNodes), dotted(p.ISRNodes), dotted(p.OfflineReplicas)))
 			}
 			pp := "-"
 			if len(ps) > 0 {
-				pp = strings.Join(ps, ".")
+				pp = strings.Join(ps, ";")
 			}
 			ts = append(ts, fmt.Sprintf("%s:%d:%s", t.Name, t.ErrorCode, pp))
 		}
@@ -584,6 +599,17 @@ func callTool(cs *mcp.ClientSession, tool string, args any) (out string) {
 	return "ok"
 }
 
+func dotted(xs []int32) string {
+	if len(xs) == 0 {
+		return "-"
+	}
+	out := make([]string, len(xs))
+	for i, x := range xs {
+		out[i] = strconv.Itoa(int(x))
+	}
+	return strings.Join(out, ".")
+}
+
 func stateIdx(s string) int {
 	for i, n := range stateNames {
 		if n == s {
@@ -636,7 +662,7 @@ func main() {
 	defer w.Flush()
 	var e *env
 	var pendingBrokers = -1
-	var pending [][2]int
+	var pending [][3]int
 	ensure := func() error {
 		if pendingBrokers >= 0 {
 			if e != nil {
@@ -675,7 +701,13 @@ func main() {
 				if pendingBrokers < 0 {
 					return "bad-op"
 				}
-				pending = append(pending, [2]int{atoi(f[1]), atoi(f[2])})
+				pending = append(pending, [3]int{atoi(f[1]), atoi(f[2]), -1})
+				return "ok"
+			case f[0] == "rtopic" && len(f) == 4:
+				if pendingBrokers < 0 {
+					return "bad-op"
+				}
+				pending = append(pending, [3]int{atoi(f[1]), atoi(f[2]), atoi(f[3])})
 				return "ok"
 			}
 			if err := ensure(); err != nil {
@@ -726,6 +758,12 @@ func main() {
 					ret, _ := strconv.ParseInt(f[3], 10, 64)
 					errs = append(errs, s.UpdateTopicConfig(ctx, &metadatapb.TopicConfig{Name: "t" + f[1], Partitions: int32(atoi(f[2])),
 						ReplicationFactor: 1, RetentionMs: ret, RetentionBytes: -1, Config: map[string]string{"k": "v"}}))
+				}
+				return e.okErr(errs...)
+			case f[0] == "parts" && len(f) == 3:
+				var errs []error
+				for _, s := range e.stores() {
+					errs = append(errs, s.CreatePartitions(ctx, "t"+f[1], int32(atoi(f[2]))))
 				}
 				return e.okErr(errs...)
 			case f[0] == "offs" && len(f) == 4:
